@@ -18,11 +18,11 @@ type declModel struct {
 	Kind string `json:"kind"` // method | func | type | var | const | import
 	Recv string `json:"recv,omitempty"`
 	Name string `json:"name"`
-	Doc  string `json:"doc,omitempty"`  // CommentGroup.Text() of the doc comment
+	Doc  string `json:"doc,omitempty"`     // CommentGroup.Text() of the doc comment
 	Raw  string `json:"raw_doc,omitempty"` // the doc comment as written
-	Body string `json:"body,omitempty"` // bytes strictly between the braces, TrimSpace'd
-	Sig  string `json:"sig,omitempty"`  // from the method name to the opening brace
-	Src  string `json:"src"`            // bytes from Pos() to End()
+	Body string `json:"body,omitempty"`    // bytes strictly between the braces, TrimSpace'd
+	Sig  string `json:"sig,omitempty"`     // from the method name to the opening brace
+	Src  string `json:"src"`               // bytes from Pos() to End()
 }
 
 type fileModel struct {
@@ -30,7 +30,7 @@ type fileModel struct {
 	Imports   [][2]string `json:"imports"`
 	Decls     []declModel `json:"decls"`
 	Remaining *string     `json:"remaining,omitempty"` // the code inside the trailing warning block, comment markers removed
-	Refs      []string    `json:"refs,omitempty"` // package identifiers the code refers to (x in x.Sel)
+	Refs      []string    `json:"refs,omitempty"`      // package identifiers the code refers to (x in x.Sel)
 	Text      string      `json:"-"`
 	ParseErr  string      `json:"parse_error,omitempty"`
 }
